@@ -121,7 +121,9 @@ def constant_cases():
 
 # ---- definitions --------------------------------------------------------------------------------------------------------------------------
 
-def spec_case(name, rule, k, outty, specfn, nan=True, base=None):
+def spec_case(name, rule, k, outty, specfn, nan=True, base=None, pre=None):
+    """pre: lane -> boolean term, the part of the operand space on which GLSL defines the function (clamp: minVal <= maxVal); outside it every result
+    is acceptable, so both sides are compared under that guard only"""
     def judge(ctx):
         err = ctx.compile_error(k)
         if err:
@@ -135,6 +137,10 @@ def spec_case(name, rule, k, outty, specfn, nan=True, base=None):
             oid = '%s[%s]' % (name, lane)
             want = sp[lane]
             want = want.t if isinstance(want, S.E) else want
+            if pre is not None and t is not want:
+                g_ = pre(lane)
+                g_ = g_.t if isinstance(g_, S.E) else g_
+                t, want = tm.select(g_, t, tm.zeros(t.w)), tm.select(g_, want, tm.zeros(t.w))
             if t is want:
                 st, detail = R.PROVED, 'term identical to the definition'
             elif outty.isfloat:
@@ -175,10 +181,10 @@ def definition_cases(T, tier):
         X = lambda nm='x', i=0, ty=ty: S.lane(nm, ty, i)
         Sx = lambda nm: S.lane(nm, sc, 0)
 
-        def add(name, rule, params, body, lanefn, outty=None, nan=True, kname=None, ty=ty, tg=tg, lanes=lanes):
+        def add(name, rule, params, body, lanefn, outty=None, nan=True, kname=None, ty=ty, tg=tg, lanes=lanes, pre=None):
             outty = outty or ty
             k = K('%s_%s' % (kname or ''.join(ch if ch.isalnum() else '_' for ch in name), tg), [Par('o', outty, False)] + params, body, CFG)
-            cs.append(spec_case('%s<%s>' % (name, tg), rule, k, outty, lambda: {i: lanefn(i) for i in lanes}, nan=nan))
+            cs.append(spec_case('%s<%s>' % (name, tg), rule, k, outty, lambda: {i: lanefn(i) for i in lanes}, nan=nan, pre=pre))
         fn1 = lambda f: (lambda i: S.fn(f, X('x', i)))
         add('abs(x)', 'definition', [pX], '*o = abs(*x);', lambda i: S.fabs(X('x', i)))
         add('floor(x)', 'definition', [pX], '*o = floor(*x);', fn1('floor'))
@@ -190,7 +196,9 @@ def definition_cases(T, tier):
         add('sign(x)', 'definition', [pX], '*o = sign(*x);', lambda i: S.sel(c(0).lt(X('x', i)), c(1), S.sel(X('x', i).lt(c(0)), c(-1), c(0))), nan=False)
         add('min(x,y)', 'definition', [pX, pY], '*o = min(*x, *y);', lambda i: S.gmin(X('x', i), X('y', i)))
         add('max(x,y)', 'definition', [pX, pY], '*o = max(*x, *y);', lambda i: S.gmax(X('x', i), X('y', i)))
-        add('clamp(x,lo,hi)', 'definition', [pX, pY, pZ], '*o = clamp(*x, *y, *z);', lambda i: S.gmin(S.gmax(X('x', i), X('y', i)), X('z', i)))
+        # GLSL: clamp is min(max(x, minVal), maxVal), undefined when minVal > maxVal -- compared on minVal <= maxVal only (max(min(x, hi), lo) is as good)
+        le = lambda a_, b_: tm.fcmp('ole', a_.t, b_.t)
+        add('clamp(x,lo,hi)', 'definition', [pX, pY, pZ], '*o = clamp(*x, *y, *z);', lambda i: S.gmin(S.gmax(X('x', i), X('y', i)), X('z', i)), pre=lambda i: le(X('y', i), X('z', i)))
         # step: 0 if x < edge, otherwise 1 -- total, also for NaN operands (the comparison is false)
         add('step(edge,x)', 'definition', [pY, pX], '*o = step(*y, *x);', lambda i: S.sel(X('x', i).lt(X('y', i)), c(0), c(1)))
         add('mix(x,y,a)', 'definition', [pX, pY, pZ], '*o = mix(*x, *y, *z);', lambda i: X('x', i) * (1 - X('z', i)) + X('y', i) * X('z', i))
@@ -209,7 +217,7 @@ def definition_cases(T, tier):
             add('mod(v,s)', 'definition', [pX, sY], '*o = mod(*x, *y);', lambda i: X('x', i) - Sx('y') * S.fn('floor', X('x', i) / Sx('y')), kname='mod_vs')
             add('min(v,s)', 'definition', [pX, sY], '*o = min(*x, *y);', lambda i: S.gmin(X('x', i), Sx('y')), kname='min_vs')
             add('max(v,s)', 'definition', [pX, sY], '*o = max(*x, *y);', lambda i: S.gmax(X('x', i), Sx('y')), kname='max_vs')
-            add('clamp(v,s,s)', 'definition', [pX, sY, sZ], '*o = clamp(*x, *y, *z);', lambda i: S.gmin(S.gmax(X('x', i), Sx('y')), Sx('z')), kname='clamp_vss')
+            add('clamp(v,s,s)', 'definition', [pX, sY, sZ], '*o = clamp(*x, *y, *z);', lambda i: S.gmin(S.gmax(X('x', i), Sx('y')), Sx('z')), kname='clamp_vss', pre=lambda i: le(Sx('y'), Sx('z')))
             add('step(s,v)', 'definition', [sY, pX], '*o = step(*y, *x);', lambda i: S.sel(X('x', i).lt(Sx('y')), c(0), c(1)), kname='step_sv')
             add('mix(v,v,s)', 'definition', [pX, pY, sZ], '*o = mix(*x, *y, *z);', lambda i: X('x', i) * (1 - Sx('z')) + X('y', i) * Sx('z'), kname='mix_vvs')
             add('smoothstep(s,s,v)', 'definition', [sY, sZ, pX], '*o = smoothstep(*y, *z, *x);', lambda i: smooth(Sx('y'), Sx('z'), X('x', i)), nan=False, kname='smoothstep_ssv')
